@@ -157,7 +157,7 @@ RasterCentres(reg, n, vals, o) ==
           /\ ColNear(o.palette[idx+1], IF inside(cx, cy) /\ DarkAt(vals, cy - m, cx - m) THEN fg ELSE bg)
 \* C18 in the raster renderer (ImageBuilder forwards the embedded-image options to the document it rasterises): with explicit size, gap and
 \* position the frame is the square of side size + 2*gap centred on the position.  Every cell whose centre lies within the inscribed circle
-\* of that square shrunk by one module shows the frame colour (true for the three frame shapes alike); every cell whose centre lies more
+\* of that square shrunk by `inner` (below) shows the frame colour (true for the three frame shapes alike); every cell whose centre lies more
 \* than one module outside the square shows what the symbol shows there.  The ring in between is not judged (alignment adjustment, rounded
 \* corners).  The referenced file does not exist, so nothing is drawn over the frame.  Milli-modules; requires no window and an image.
 RasterFrame(reg, n, vals, o) ==
@@ -167,13 +167,16 @@ RasterFrame(reg, n, vals, o) ==
       inside(cx, cy) == cx >= m /\ cx < m + n /\ cy >= m /\ cy < m + n
       dx(cx) == AbsI(cx*1000 + 500 - reg.pos[1])
       dy(cy) == AbsI(cy*1000 + 500 - reg.pos[2])
+      \* radius inside which a sampled pixel lies wholly in the frame whatever its shape: one module of safety, half a module of
+      \* alignment adjustment (the property allows it), and the half-diagonal of the sampled pixel (0.71 module at one pixel per module)
+      inner == half - 1500 - (710 \div o.scale_int) - 1
   IN /\ o.cells = cells /\ Len(o.centre) = cells
      /\ \A cy \in 0..cells-1 : \A cx \in 0..cells-1 :
-          LET idx == CentreIdx(o, cx, cy) IN
-          /\ idx < Len(o.palette)
-          /\ ((half > 1000 /\ dx(cx) < half /\ dy(cy) < half /\ dx(cx)*dx(cx) + dy(cy)*dy(cy) <= (half - 1000)*(half - 1000)) => ColNear(o.palette[idx+1], fr))
+          LET idx == CentreIdx(o, cx, cy) IN        \* (cells of the unjudged ring may hold blended colours beyond the palette of the sensor)
+          /\ ((inner > 0 /\ dx(cx) < half /\ dy(cy) < half /\ dx(cx)*dx(cx) + dy(cy)*dy(cy) <= inner*inner) =>
+                 idx < Len(o.palette) /\ ColNear(o.palette[idx+1], fr))
           /\ ((dx(cx) > half + 1000 \/ dy(cy) > half + 1000) =>
-                 ColNear(o.palette[idx+1], IF inside(cx, cy) /\ DarkAt(vals, cy - m, cx - m) THEN fg ELSE bg))
+                 idx < Len(o.palette) /\ ColNear(o.palette[idx+1], IF inside(cx, cy) /\ DarkAt(vals, cy - m, cx - m) THEN fg ELSE bg))
 RasterUniform(reg, n, o) == LET cells == n + 2*reg.margin
                                 w0 == IF "win" \in DOMAIN o THEN o.win ELSE 0
                                 wn == IF "win" \in DOMAIN o THEN n + 8 ELSE cells IN
